@@ -35,6 +35,20 @@ theorem case_length (s : Str) :
   refine ⟨by simp [upcase], by simp [downcase], ?_⟩
   cases s <;> simp [capitalize]
 
+/-- **upcase / downcase are idempotent** and leave no letter of the other case (ASCII). -/
+theorem upcase_idem (s : Str) : upcase (upcase s) = upcase s := by
+  simp [upcase, List.map_map, Function.comp_def, upperC_idem]
+
+/-- downcase is idempotent -/
+theorem downcase_idem (s : Str) : downcase (downcase s) = downcase s := by
+  simp [downcase, List.map_map, Function.comp_def, lowerC_idem]
+
+/-- after upcase no lower-case ASCII letter remains -/
+theorem upcase_no_lower (s : Str) : ∀ c ∈ upcase s, isLowerC c = false := by
+  intro c hc
+  obtain ⟨d, _, rfl⟩ := List.mem_map.1 hc
+  exact upperC_not_lower d
+
 /-- `capitalize` is "upper-case the first character, lower-case the rest" -/
 theorem capitalize_spec (c : Char) (cs : Str) : capitalize (c :: cs) = upperC c :: downcase cs := rfl
 
@@ -229,6 +243,18 @@ theorem slice_spec_nonneg (s : Str) (st ln : Nat) (h1 : (st : Int) ≤ MAX_SLICE
   have e3 : max (ln : Int) 0 = ln := by omega
   have e4 : ¬ ((st : Int) < 0) := by omega
   simp [fSlice, isUndef, sliceArg, toInt, e1, e2, e4, pySlice_nonneg]
+
+/-- **slice** with a negative start inside the sequence counts from the end. -/
+theorem slice_spec_negative_start (s : Str) (k ln : Nat) (hk : 0 < k) (hk2 : k ≤ s.length)
+    (h1 : (k : Int) ≤ MAX_SLICE_ARG) (h2 : (ln : Int) ≤ MAX_SLICE_ARG) :
+    fSlice (.str s) (.int (-(k : Int))) (.int ln) = .ok (.str ((s.drop (s.length - k)).take ln)) := by
+  have e1 : max (min (-(k : Int)) MAX_SLICE_ARG) MIN_SLICE_ARG = -(k : Int) := by unfold MAX_SLICE_ARG MIN_SLICE_ARG at *; omega
+  have e2 : max (min (ln : Int) MAX_SLICE_ARG) MIN_SLICE_ARG = ln := by unfold MAX_SLICE_ARG MIN_SLICE_ARG at *; omega
+  have e3 : max (ln : Int) 0 = ln := by omega
+  have := pySlice_neg s k ln hk hk2
+  simp only [fSlice, isUndef, sliceArg, toInt, Option.map, e1, e2, e3, Bool.false_eq_true, if_false]
+  simp only [Bool.and_eq_true, decide_eq_true_eq]
+  rw [this]
 
 /-- a negative length selects nothing (after the fix) -/
 theorem slice_negative_length (s : Str) (st : Nat) (ln : Int) (hl : ln < 0) (h0 : MIN_SLICE_ARG ≤ ln)
